@@ -5,6 +5,7 @@ import (
 	"math/bits"
 	"runtime"
 	"runtime/debug"
+	"strings"
 )
 
 // Size of the Object interface in bytes.
@@ -42,4 +43,38 @@ func MustBeOk(n int) {
 func MakeObjectSlice(n int) []Object {
 	MustBeOk(n)
 	return make([]Object, 0, n)
+}
+
+// GuardedBuilder is a strings.Builder whose growth is checked against the memory budget (MustBeOk), each time it
+// has doubled: for library functions that produce their result piece by piece (json...).
+type GuardedBuilder struct {
+	strings.Builder
+	next int
+}
+
+func (b *GuardedBuilder) check(n int) {
+	if l := b.Len() + n; l > b.next {
+		MustBeOk(2 * l / ObjectSize) // (the builder doubles its buffer when it grows.)
+		b.next = 2 * l
+	}
+}
+
+func (b *GuardedBuilder) Write(p []byte) (int, error) {
+	b.check(len(p))
+	return b.Builder.Write(p)
+}
+
+func (b *GuardedBuilder) WriteString(s string) (int, error) {
+	b.check(len(s))
+	return b.Builder.WriteString(s)
+}
+
+func (b *GuardedBuilder) WriteByte(c byte) error {
+	b.check(1)
+	return b.Builder.WriteByte(c)
+}
+
+func (b *GuardedBuilder) WriteRune(r rune) (int, error) {
+	b.check(4) //nolint:mnd // utf8.UTFMax
+	return b.Builder.WriteRune(r)
 }
